@@ -79,9 +79,9 @@ CHECKS = {
             "Exploration: plan exists when encodable, plan well-formed, latch sequence equals plan's non-ASCII modes, symbol used <= symbol predicted from the planner's chosen cost.",
             "Trusted: hook H1 (planner statistics), R1.",
             "DESIGN.md §5 C18"),
-    "C19": ("work-bound check by instrumented counters (hook H1) on adversarial generated inputs up to the maximal length",
+    "C19": ("work-bound check by instrumented counters (hooks H1, H4) on adversarial generated inputs up to the maximal length",
             "Exploration: steps <= 216(n+1)+6, live plans <= 36, iterations <= n+1 for adversarial alternations; no stopwatch.",
-            "Trusted: hook H1 counters.",
+            "Trusted: hook H1 counters; hook H4 (step budget, 4x the bound) ends a planner run that already violates the bound.",
             "DESIGN.md §5 C19"),
 }
 
